@@ -85,8 +85,19 @@ func realComp(sc *refmodel.Comp) *psatoken.SwComponent {
 
 // realComps builds the library's container holding exactly the abstract components.
 func realComps(a *refmodel.Claims) (psatoken.ISwComponents, error) {
+	c, _, err := realCompsPtrs(a)
+	return c, err
+}
+
+// realCompsPtrs also returns the component objects the container holds (nil if they are not accessible).
+func realCompsPtrs(a *refmodel.Claims) (psatoken.ISwComponents, []*psatoken.SwComponent, error) {
+	c, p, err := realCompsInner(a)
+	return c, p, err
+}
+
+func realCompsInner(a *refmodel.Claims) (psatoken.ISwComponents, []*psatoken.SwComponent, error) {
 	if a.CompsNil {
-		return nil, nil
+		return nil, nil, nil
 	}
 	cont := &psatoken.SwComponents[*psatoken.SwComponent]{}
 	hasNil := false
@@ -98,9 +109,9 @@ func realComps(a *refmodel.Claims) (psatoken.ISwComponents, error) {
 	if hasNil {
 		// only the unvalidated decoder can place a nil element
 		if err := cont.UnmarshalCBOR(mcbor.Encode(compsTree(a.Comps))); err != nil {
-			return nil, err
+			return nil, nil, err
 		}
-		return cont, nil
+		return cont, nil, nil
 	}
 	// Add valid placeholders, then overwrite the fields through the pointers the container holds
 	var ptrs []*psatoken.SwComponent
@@ -109,13 +120,13 @@ func realComps(a *refmodel.Claims) (psatoken.ISwComponents, error) {
 		p := &psatoken.SwComponent{MeasurementValue: &mv, SignerID: &si}
 		ptrs = append(ptrs, p)
 		if err := cont.Add(p); err != nil {
-			return nil, err
+			return nil, nil, err
 		}
 	}
 	for i, sc := range a.Comps {
 		*ptrs[i] = *realComp(sc)
 	}
-	return cont, nil
+	return cont, ptrs, nil
 }
 
 func eatNonce(ns [][]byte) (*eat.Nonce, error) {
@@ -219,6 +230,8 @@ func wrapExt(a *refmodel.Claims, p1 *psatoken.P1Claims, p2 *psatoken.P2Claims) (
 		return &ExtP2Claims{P2Claims: *p2}, nil
 	case ExtP1Name:
 		return &ExtP1Claims{P1Claims: *p1}, nil
+	case ExtStrictName:
+		return &ExtStrictClaims{P2Claims: *p2}, nil
 	}
 	if p1 != nil {
 		return p1, nil
